@@ -13,7 +13,8 @@
 (***************************************************************************)
 EXTENDS Integers, FiniteSets, Sequences, TLC, Json
 
-CONSTANTS MaxCap, MaxSlotVer, MaxArchVer, InitCaps, MaxOps, MaxLen, Edges
+CONSTANTS MaxCap, MaxSlotVer, MaxArchVer, InitCaps, MaxOps, MaxLen, Edges,
+          Events   \* TRUE: feature `events` -- per-world created / destroyed logs, clear_events
 Wrapping == FALSE
 DebugAsserts == TRUE
 
@@ -21,8 +22,10 @@ S == INSTANCE Storage
 
 VARIABLES ex,    \* ex[w]: world w exists
           W,     \* W[w]: its storage record (canonical empty record when it does not exist)
-          ops    \* number of operations so far (bounds the histories)
-vars == <<ex, W, ops>>
+          ops,   \* number of operations so far (bounds the histories)
+          cr,    \* cr[w]: the archetype's `created` log (sequence of <<pos, gen>>); <<>> without Events
+          ds     \* ds[w]: the `destroyed` log
+vars == <<ex, W, ops, cr, ds>>
 
 Worlds == {1, 2}
 HandleU == (0..(MaxCap - 1)) \X (1..MaxSlotVer)
@@ -31,13 +34,18 @@ None == S!New(0)
 Init == /\ \E c \in InitCaps : W = [w \in Worlds |-> IF w = 1 THEN S!New(c) ELSE None]
         /\ ex = [w \in Worlds |-> w = 1]
         /\ ops = 0
+        /\ cr = [w \in Worlds |-> <<>>]
+        /\ ds = [w \in Worlds |-> <<>>]
 
 Proj(s) == [cap |-> s.cap, len |-> s.len, aver |-> s.aver, head |-> s.head,
             slots |-> [p \in 1..s.cap |-> <<IF s.free[p - 1] THEN 1 ELSE 0, s.idx[p - 1], s.ver[p - 1]>>],
             dense |-> [i \in 1..s.len |-> <<s.dpos[i - 1], s.dver[i - 1]>>]]
-ProjW(e, ws) == [w \in Worlds |-> IF e[w] THEN <<"world", Proj(ws[w])>> ELSE <<"none">>]
-Edge(op, arg, e2, w2) ==
-    IF Edges THEN PrintT(<<"WEDGE", ToJson([from |-> ProjW(ex, W), op |-> op, arg |-> arg, to |-> ProjW(e2, w2)])>>) ELSE TRUE
+ProjW(e, ws, c, d) == [w \in Worlds |-> IF ~e[w] THEN <<"none">>
+                                       ELSE IF Events THEN <<"world", Proj(ws[w]), c[w], d[w]>>
+                                       ELSE <<"world", Proj(ws[w])>>]
+Edge(op, arg, e2, w2, c2, d2) ==
+    IF Edges THEN PrintT(<<"WEDGE", ToJson([from |-> ProjW(ex, W, cr, ds), op |-> op, arg |-> arg, to |-> ProjW(e2, w2, c2, d2)])>>) ELSE TRUE
+Log(l, w, h) == IF Events THEN [l EXCEPT ![w] = Append(@, h)] ELSE l
 
 Step == ops < MaxOps /\ ops' = ops + 1
 
@@ -45,8 +53,9 @@ Create(w) ==
     /\ Step /\ ex[w] /\ S!PushOutcome(W[w]) = "ok"
     /\ W[w].len < MaxLen
     /\ W' = [W EXCEPT ![w] = S!Push(W[w])]
-    /\ UNCHANGED ex
-    /\ Edge("create", <<w, IF W[w].len < W[w].cap THEN 1 ELSE 0>>, ex, W')
+    /\ cr' = Log(cr, w, <<S!NextPos(W[w]), S!NextGen(W[w])>>)      \* force_create pushes the new handle
+    /\ UNCHANGED <<ex, ds>>
+    /\ Edge("create", <<w, IF W[w].len < W[w].cap THEN 1 ELSE 0>>, ex, W', cr', ds')
 
 Destroy(w) ==
     \E h \in HandleU :
@@ -54,22 +63,36 @@ Destroy(w) ==
         /\ Step /\ ex[w] /\ r >= 0
         /\ ~S!DestroyPanics(W[w], h[1])
         /\ W' = [W EXCEPT ![w] = S!ForceDestroy(W[w], h[1], r)]
-        /\ UNCHANGED ex
-        /\ Edge("destroy", <<w, h[1], h[2]>>, ex, W')
+        /\ ds' = Log(ds, w, h)                                       \* force_destroy pushes the removed handle
+        /\ UNCHANGED <<ex, cr>>
+        /\ Edge("destroy", <<w, h[1], h[2]>>, ex, W', cr', ds')
 
 Clone(src, dst) ==
     /\ Step /\ src # dst /\ ex[src]
     /\ W' = [W EXCEPT ![dst] = W[src]]
     /\ ex' = [ex EXCEPT ![dst] = TRUE]
-    /\ Edge(IF ex[dst] THEN "clone_from" ELSE "clone", <<src, dst>>, ex', W')
+    /\ cr' = [cr EXCEPT ![dst] = cr[src]]                              \* pending events are cloned (C13)
+    /\ ds' = [ds EXCEPT ![dst] = ds[src]]
+    /\ Edge(IF ex[dst] THEN "clone_from" ELSE "clone", <<src, dst>>, ex', W', cr', ds')
 
 Drop(w) ==
     /\ Step /\ ex[w] /\ \E v \in Worlds : v # w /\ ex[v]
     /\ W' = [W EXCEPT ![w] = None]
     /\ ex' = [ex EXCEPT ![w] = FALSE]
-    /\ Edge("drop", <<w>>, ex', W')
+    /\ cr' = [cr EXCEPT ![w] = <<>>]
+    /\ ds' = [ds EXCEPT ![w] = <<>>]
+    /\ Edge("drop", <<w>>, ex', W', cr', ds')
 
-Next == \E w \in Worlds : Create(w) \/ Destroy(w) \/ Drop(w) \/ (\E v \in Worlds : Clone(w, v))
+\* clear_events (world- or archetype-level: the replay alternates): both logs emptied, nothing else
+ClearEvents(w) ==
+    /\ Events /\ Step /\ ex[w]
+    /\ cr[w] # <<>> \/ ds[w] # <<>>
+    /\ cr' = [cr EXCEPT ![w] = <<>>]
+    /\ ds' = [ds EXCEPT ![w] = <<>>]
+    /\ UNCHANGED <<ex, W>>
+    /\ Edge("clear_events", <<w>>, ex, W, cr', ds')
+
+Next == \E w \in Worlds : Create(w) \/ Destroy(w) \/ Drop(w) \/ ClearEvents(w) \/ (\E v \in Worlds : Clone(w, v))
 Spec == Init /\ [][Next]_vars
 
 \* free chain of one storage (as in StorageMC)
@@ -89,4 +112,15 @@ CrossWorldSafe ==
     \A w \in Worlds : ex[w] => \A h \in HandleU :
         LET r == S!ResolveEntity(W[w], h[1], h[2]) IN
         r >= 0 => (r < W[w].len /\ W[w].dpos[r] = h[1] /\ W[w].dver[r] = h[2])
+\* C17 at the level of the implementation model: the logs never repeat a handle, everything in the
+\* destroyed log is dead, everything created and not destroyed since the last clear is alive,
+\* a non-existing world has no logs, and without the feature there are none at all
+SeqSetOf(q) == {q[i] : i \in DOMAIN q}
+EventsOk ==
+    \A w \in Worlds :
+        /\ (~Events \/ ~ex[w]) => (cr[w] = <<>> /\ ds[w] = <<>>)
+        /\ Cardinality(SeqSetOf(cr[w])) = Len(cr[w])
+        /\ Cardinality(SeqSetOf(ds[w])) = Len(ds[w])
+        /\ \A h \in SeqSetOf(ds[w]) : S!ResolveEntity(W[w], h[1], h[2]) < 0
+        /\ \A h \in SeqSetOf(cr[w]) \ SeqSetOf(ds[w]) : S!ResolveEntity(W[w], h[1], h[2]) >= 0
 =============================================================================
